@@ -83,7 +83,8 @@ def eval_defaults(default):
 
 
 # ---------------------------------------------------------------- zone resolution
-ZTEXTS = ['+0300', '-03:00', ' +0300', 'UTC', 'Z', ' GMT', ' UTC', ' GMT+3', ' UTC-3', ' GMT-03:30', ' EST', ' EDT', ' BRST', ' BST',
+ZTEXTS = ['+0300', '-03:00', ' +0300', 'UTC', 'Z', ' GMT', ' UTC', ' GMT+3', ' UTC-3', ' GMT-03:30', ' GMT+03:30', ' UTC+5:45',
+          '-0330', ' -09:30', '-00:45', '+05:45', ' -0230 (NDT)', ' EST', ' EDT', ' BRST', ' BST',
           '+0000', ' -0000', ' +00:00', '', ' CET', ' XYZT', ' +0300 (MSK)', ' -0500 (EST)']
 BASES = ['2003-09-25 10:36:28', '2003-01-25 10:36:28', '2003-10-26 01:30:00', '2003-11-02 01:30:00']
 TZENVS = [None, 'Europe/London', 'America/New_York', 'EST5EDT,M4.1.0,M10.5.0', 'UTC0']
@@ -134,9 +135,13 @@ def scan_zone_text(z):
         name = head
     if rest:
         sign = 1 if rest[0] == '+' else -1
-        digits = rest[1:].replace(':', '')
-        hh = int(digits[:2])
-        mm = int(digits[2:4] or 0)
+        body = rest[1:]
+        if ':' in body:
+            hh, mm = [int(x) for x in body.split(':')[:2]]
+        elif len(body) <= 2:
+            hh, mm = int(body), 0
+        else:
+            hh, mm = int(body[:2]), int(body[2:4])
         off = sign * (hh * 3600 + mm * 60)
         if head:
             # 'GMT+3' reads "my time + 3 h is GMT": 3 hours behind; the zone is not the named one
